@@ -131,6 +131,7 @@ def analyse(facts, tier):
                     if v['n'] == name and 'init' in v:
                         return v['init'], st['loc']
         return None, fn.loc
+    raw_leaves = {}
     def composed_key(fn):
         """{percussive?: normalised affine form} of the bank key a function composes: the integer local that receives the percussion
         tag, read in front of its first use, for both values of the condition that selects the tag"""
@@ -186,6 +187,7 @@ def analyse(facts, tier):
             eng = affine.Affine(fn, atoms_, val)
             env = eng.run(first_use)
             f_ = env.get(key_id) if env else None
+            raw_leaves.setdefault(fn.name, {})[val['perc']] = sorted(f_[0]) if f_ is not None else None
             if f_ is not None:
                 d = {}
                 for s_, c_ in f_[0].items():
@@ -216,7 +218,33 @@ def analyse(facts, tier):
         return bool(n_) and n_[0] == '>' and n_[2] == lim and strip(n_[1]).get('k') == 'MemberExpr' and short(strip(n_[1])['n']) == fld
     gfs = [f_ for b, j, st in gb.cfg.returns() if const_of(st['s'].get('e')) == -1 for f_ in guard_facts(gb, b, st)]
     okv = all(any(rng(f_, fld, lim) for f_ in gfs) for fld, lim in (('lsb', 127), ('msb', 127), ('percussive', 1)))
-    obls.append(Obl('C12.R1', gb.name, 'identifier range validated', gb.loc, 'discharged' if okv else 'finding', why='lsb, msb <= 127 and percussive <= 1 or -1 is returned' if okv else 'identifier fields are not range-checked: %s' % txt[:120]))
+    obls.append(Obl('C12.R1', gb.name, 'identifier range validated', gb.loc, 'discharged' if okv else 'finding', why='lsb, msb <= 127 (melodic) and percussive <= 1 or -1 is returned' if okv else 'identifier fields are not range-checked: %s' % txt[:120]))
+    # the identifiers must be able to name every bank the loader creates: when the loader keeps all 8 bits of a percussive LSB (XG
+    # SFX kits are the percussion sets 128..255 of a bank file), opn2_getBank refuses an LSB above 127 for melodic banks only
+    lk = raw_leaves.get(lb.name, {}).get(True) or []
+    loader_perc_lsb8 = any('lsb' in l_.lower() for l_ in lk) and not any('lsb' in l_.lower() and '&0x7f' in l_.lower() for l_ in lk)
+    def not_perc(l_):
+        if l_[0] == 'truth':
+            return not l_[2] and strip(l_[1]).get('k') == 'MemberExpr' and short(strip(l_[1])['n']) == 'percussive'
+        n_ = cmp_norm(l_) if l_[0] == 'cmp' else None
+        return bool(n_) and strip(n_[1]).get('k') == 'MemberExpr' and short(strip(n_[1])['n']) == 'percussive' and ((n_[0] == '==' and n_[2] == 0) or (n_[0] == '<' and n_[2] == 1))
+    def lsb_refusal_melodic_only(f_):
+        # in the refusing disjunction, the alternative that tests lsb > 127 also says "not percussive"
+        if f_[0] != 'or':
+            return False
+        def flat_alts(f__):
+            for alt in f__[1]:
+                if len(alt) == 1 and alt[0][0] == 'or':
+                    yield from flat_alts(alt[0])
+                else:
+                    yield alt
+        hit = [alt for alt in flat_alts(f_) if any(l_[0] == 'cmp' and rng(l_, 'lsb', 127) for l_ in alt)]
+        return bool(hit) and all(any(not_perc(l_) for l_ in alt) for alt in hit)
+    refuses_all = any(rng(f_, 'lsb', 127) for f_ in gfs)
+    ok8 = (not loader_perc_lsb8) or (not refuses_all) or any(lsb_refusal_melodic_only(f_) for f_ in gfs)
+    obls.append(Obl('C12.R1', gb.name, 'every percussion set the loader creates can be named', gb.loc, 'discharged' if ok8 else 'finding',
+                    why=('the LSB test applies to melodic banks only' if loader_perc_lsb8 else 'the loader masks the percussive LSB to 7 bits as well') if ok8 else
+                    'LoadBank keeps all 8 bits of a percussive LSB (sets 128..255 are the XG SFX kits) but opn2_getBank refuses every LSB above 127: a loaded SFX kit is played by note-on and cannot be looked up, replaced or removed through the bank API'))
     # decode
     dec = {}
     for b, j, st in gi.cfg.stmts():
@@ -232,9 +260,11 @@ def analyse(facts, tier):
                     if y.get('k') == 'BinaryOperator' and y['op'] == '&' and const_of(y['r']) is not None:
                         mask = const_of(y['r'])
                 dec[fld] = (sh, mask)
-    okd = dec.get('msb') == (8, 127) and dec.get('lsb') == (0, 127) and dec.get('percussive') == (0, TAG)
+    want_lsb = (255,) if loader_perc_lsb8 else (127, 255)
+    okd = dec.get('msb') == (8, 127) and dec.get('lsb', (None, None))[0] == 0 and dec.get('lsb', (None, None))[1] in want_lsb and dec.get('percussive') == (0, TAG)
     obls.append(Obl('C12.R1', gi.name, 'identifier decode is the inverse of the key', gi.loc, 'discharged' if okd else 'finding',
-                    why='msb = (key >> 8) & 127, lsb = key & 127, percussive = key & tag' if okd else 'decode does not invert the key: %s' % dec))
+                    why='msb = (key >> 8) & 127, lsb = key & %d, percussive = key & tag' % dec['lsb'][1] if okd else
+                    'decode does not invert the key (%s): the LSB of a percussion set is the low byte of the key%s' % (dec, ', all 8 bits of it (the loader creates sets 128..255)' if loader_perc_lsb8 else '')))
     # note-on: the key handed to the bank map and the entry index, as affine forms of the channel's bank bytes / program / key, for
     # every combination of: percussion channel, GS mode, XG mode, MSB == 0x7E, MSB != 0, LSB != 0 (affine propagation with trace
     # partitioning: however the computation is spread over assignments, `+=` and branches, the value in front of the first look-up
